@@ -38,6 +38,8 @@ DEFS = [
     ("lifetime", "pub struct @<'a, T: 'static> { pub a: &'a T, pub b: std::borrow::Cow<'a, str> }", ["T"], {"lifetimes": 1}),
     ("const", "pub struct @<T, const N: usize> { pub a: [T; N], pub b: T }", ["T"], {"consts": ["2"]}),
     ("concrete", '#[ts(concrete(B = i32))] pub struct @<A, B> { pub a: A, pub b: B }', ["A"], {"concrete": {"B": "i32"}}),
+    ("concrete with default", '#[ts(concrete(B = i32))] pub struct @<A, B = u8> { pub a: A, pub b: B }', ["A"], {"concrete": {"B": "i32"}}),
+    ("all concrete with default", '#[ts(concrete(T = bool))] pub enum @<T = bool> { A(T), B { x: Vec<T> }, C }', [], {"concrete": {"T": "bool"}}),
     ("enum", "pub enum @<T> { A(T), B { x: Vec<T> }, C }", ["T"], {}),
     ("enum tagged", '#[ts(tag = "t", content = "c")] pub enum @<T> { A(T), B { x: Option<T> }, C(T, T) }', ["T"], {}),
     ("newtype", "pub struct @<T>(pub T);", ["T"], {}),
